@@ -129,11 +129,12 @@ func c11Random(rng *hx.Rng, k int) c11Scenario {
 }
 
 type c11Job struct {
-	sc   c11Scenario
-	f    c11Fault
-	hold bool
-	fam  int    // family of the run: 0 scenario enumeration, 1 blocked consumer, 2 many handlers (see c11Hung)
-	wrap string // "": the endpoint runs on the gated stream itself; "conn": on net.ConnStream over it
+	sc    c11Scenario
+	f     c11Fault
+	hold  bool
+	fam   int    // family of the run: 0 scenario enumeration, 1 blocked consumer, 2 many handlers (see c11Hung)
+	wrap  string // "": the endpoint runs on the gated stream itself; "conn": on net.ConnStream over it
+	dedup bool   // a case term identical to one already written is not written again
 }
 
 // c11Jobs: the fault at every position of the script, inside every Write (wpart) and after
@@ -159,7 +160,7 @@ func c11Jobs(sc c11Scenario) []c11Job {
 		if st.kind != "frame" {
 			continue
 		}
-		nfr := len(c11Split(c11Frame(st.owner, st.idx, st.mtype, 0), st.frags))
+		nfr := len(c11Split(c11StepFrame(st, 0), st.frags))
 		for f := 1; f < nfr; f++ {
 			for _, k := range []string{"rerr", "reof", "lclose", "half"} {
 				add(c11Fault{pos: pos, frag: f, kind: k})
@@ -202,7 +203,7 @@ func c11KindJobs(sc c11Scenario, salt int) []c11Job {
 		if st.kind != "frame" {
 			continue
 		}
-		nfr := len(c11Split(c11Frame(st.owner, st.idx, st.mtype, 0), st.frags))
+		nfr := len(c11Split(c11StepFrame(st, 0), st.frags))
 		for f := 1; f < nfr; f++ {
 			add(pos, f, "rkind")
 		}
